@@ -252,6 +252,9 @@ class PathResult:
         self.calls = calls      # tuple of (bb, callee path) in path order
 
 
+STD_VARIANT = {'Ok': 0, 'Err': 1, 'None': 0, 'Some': 1, 'Continue': 0, 'Break': 1}
+
+
 def explore(body, tracked=None, summaries=None, max_states=20000, on_call=None):
     """Enumerate all acyclic entry->exit paths of `body` (loops are cut at the
     back edge: each block at most once per path).
@@ -308,6 +311,13 @@ def explore(body, tracked=None, summaries=None, max_states=20000, on_call=None):
         for s in blk['stmts']:
             if s['k'] == 'assign' and not s['lhs']['p'] and s['rv']['k'] == 'agg' and s['rv'].get('ak') == 'adt':
                 env[('v', s['lhs']['l'])] = s['rv']['variant']
+            elif s['k'] == 'assign' and not s['lhs']['p'] and s['rv']['k'] == 'use' and is_place(s['rv']['op']) and not s['rv']['op']['pl']['p']:
+                # a copy / move of a local whose variant is known on this path (the return slot of a spliced-in helper)
+                lv0 = op_local(s['rv']['op'])
+                if ('v', lv0) in env:
+                    env[('v', s['lhs']['l'])] = env[('v', lv0)]
+                elif ('v', s['lhs']['l']) in env:
+                    del env[('v', s['lhs']['l'])]
             p, var = assign_effect(env, s)
             if p is not None and var is None and s['k'] == 'assign' and s['rv']['k'] == 'use':
                 lv = op_local(s['rv']['op'])
@@ -358,6 +368,10 @@ def explore(body, tracked=None, summaries=None, max_states=20000, on_call=None):
                 elif rv['k'] == 'un' and rv.get('op') == 'Not' and is_place(rv['a']) and not rv['a']['pl']['p'] \
                         and env.get(('c', rv['a']['pl']['l'])) in (0, 1):
                     env[ck] = 1 - env[('c', rv['a']['pl']['l'])]
+                elif rv['k'] == 'discr' and not rv['pl']['p'] and env.get(('v', rv['pl']['l'])) in STD_VARIANT:
+                    # the discriminant of a local whose variant is known on this path (a `?` on the result of a
+                    # spliced-in helper: the helper's `Err(..)?` arm and the caller's Continue arm do not combine)
+                    env[ck] = STD_VARIANT[env[('v', rv['pl']['l'])]]
                 elif ck in env:
                     del env[ck]
         t = blk['term']
@@ -382,6 +396,20 @@ def explore(body, tracked=None, summaries=None, max_states=20000, on_call=None):
             if t.get('t') is None:
                 results.append(PathResult('diverge', env, decisions, blocks, ret, calls2))
                 continue
+            if not t['dest']['p']:
+                # `?`: Try::branch maps Ok / Some to Continue (0) and Err / None to Break (1); from_residual builds the Err / None
+                env = dict(env)
+                dl = t['dest']['l']
+                env.pop(('v', dl), None)
+                env.pop(('c', dl), None)
+                cps = cp or ''
+                a0 = op_local(t['args'][0]) if t['args'] and is_place(t['args'][0]) and not t['args'][0]['pl']['p'] else None
+                if cps.endswith('as std::ops::Try>::branch') and a0 is not None and env.get(('v', a0)) in ('Ok', 'Err', 'Some', 'None'):
+                    env[('v', dl)] = 'Continue' if env[('v', a0)] in ('Ok', 'Some') else 'Break'
+                elif '::from_residual' in cps and cps.startswith('<std::result::Result<'):
+                    env[('v', dl)] = 'Err'
+                elif '::from_residual' in cps and cps.startswith('<std::option::Option<'):
+                    env[('v', dl)] = 'None'
             if not t['dest']['p'] and t['dest']['l'] == 0:
                 ret = '%s(%s)' % (cp, ', '.join(describe(body, a, 4, at=bb) for a in t['args']))
             elif not t['dest']['p'] and len(body.defs().get(t['dest']['l'], [])) > 1:
